@@ -1,6 +1,8 @@
 (* Property C15 — a published object is retrieved byte-for-byte, newest version, completing once.
    Only theorem statements closed by `exact`, each followed by Print Assumptions. *)
-From Object Require Import ObjSeg ObjSegProofs Store Defects Fetch FetchStream FetchSafe FetchLive FetchBudget FetchCheck.
+From Coq Require Import Permutation.
+From Names Require Import Order.
+From Object Require Import ObjSeg ObjSegProofs Store StoreSpec StoreMem StoreBolt StoreThm Defects Fetch FetchStream FetchSafe FetchLive FetchBudget FetchCheck.
 Open Scope nat_scope.
 
 Definition S8000 : nat := N.to_nat pSegmentSize.
@@ -33,6 +35,41 @@ Theorem produce_alias_refuted_before_fix :
   exists nm ver spare, produce_ret_prefix nm ver spare <> nm ++ [ver_comp ver].
 Proof. exact produce_alias_refuted. Qed.
 Print Assumptions produce_alias_refuted_before_fix.
+
+(* ---- the two stores refine one finite-map specification (Store.v: sp_step, spec_get_ok) ----
+   spec_get_ok e nm prefix res: exact query = the wire stored under exactly nm; prefix query with nothing stored under exactly
+   nm = nothing iff nothing is stored under the prefix, else a wire of MAXIMAL version among the names under it
+   (StoreThm.newest_meaning spells this out). run_spec = the specification run on the same history. *)
+Theorem newest_version_mem : forall (order : list cand -> list cand), (forall l, Permutation (order l) l) ->
+  forall ops nm p, brackets false ops ->
+  spec_get_ok (ss_e (run_spec ops)) nm p (mt_get order (ms_root (run_mem order ops)) nm p) = true.
+Proof. exact StoreThm.newest_version_mem. Qed.
+Print Assumptions newest_version_mem.
+
+Theorem newest_version_bolt : forall cap ops nm p, bbrackets false ops -> Forall op_wf ops -> Forall comp_wf nm ->
+  (p = true -> (N.of_nat (spec_scan_len (ss_e (fold_left sp_step ops ss_init)) nm) < cap)%N) ->
+  spec_get_ok (ss_e (fold_left sp_step ops ss_init)) nm p (b_get cap (bs_db (run_bolt cap ops)) nm p) = true.
+Proof. exact StoreThm.newest_version_bolt. Qed.
+Print Assumptions newest_version_bolt.
+
+Theorem removed_not_served_mem : forall (order : list cand -> list cand), (forall l, Permutation (order l) l) ->
+  forall ops nm, brackets false (ops ++ [SRemove nm true]) ->
+  forall q p, is_prefix nm q = true -> mt_get order (ms_root (run_mem order (ops ++ [SRemove nm true]))) q p = None.
+Proof. exact StoreThm.removed_not_served_mem. Qed.
+Print Assumptions removed_not_served_mem.
+
+Theorem removed_not_served_bolt : forall cap ops nm, (0 < cap)%N -> bbrackets false (ops ++ [SRemove nm true]) ->
+  Forall op_wf (ops ++ [SRemove nm true]) ->
+  forall q p, Forall comp_wf q -> is_prefix nm q = true ->
+  b_get cap (bs_db (run_bolt cap (ops ++ [SRemove nm true]))) q p = None.
+Proof. exact StoreThm.removed_not_served_bolt. Qed.
+Print Assumptions removed_not_served_bolt.
+
+(* bucket order of version components is numeric order, also across byte-length boundaries (255 -> 256) *)
+Theorem version_key_order : forall a b, (a < two64)%N -> (b < two64)%N ->
+  bytes_cmp (comp_enc (ver_comp a)) (comp_enc (ver_comp b)) = (a ?= b)%N.
+Proof. exact StoreBolt.version_key_order. Qed.
+Print Assumptions version_key_order.
 
 (* further refutations of the pinned tree's behaviour (all repaired in /repo except the scan cap, a known finding) *)
 Theorem bolt_prefix_refuted_before_fix :
